@@ -473,6 +473,46 @@ def _single_exit(body: list[ast.stmt], ret: str) -> list[ast.stmt] | None:
             if isinstance(st, (ast.FunctionDef, ast.AsyncFunctionDef, ast.ClassDef)) or not has_ret(st):
                 out.append(st)
                 continue
+            if isinstance(st, (ast.For, ast.While)) and not st.orelse:
+                # returns inside a loop: `return E` -> `__ret = E; break`; what follows the loop runs only if it was not left
+                # this way, i.e. it is the loop's else clause (the loop must have no break / else of its own)
+                def own(ss: list[ast.stmt], kinds: tuple) -> bool:
+                    for x in ss:
+                        if isinstance(x, kinds):
+                            return True
+                        if isinstance(x, (ast.For, ast.While, ast.FunctionDef, ast.ClassDef)):
+                            continue
+                        if any(own(b, kinds) for b in _blocks(x)):
+                            return True
+                    return False
+
+                def nested_loop_ret(ss: list[ast.stmt]) -> bool:
+                    return any(isinstance(x, (ast.For, ast.While, ast.Try, ast.With)) and has_ret(x) for y in ss for x in ast.walk(y) if x is not st)
+
+                if own(st.body, (ast.Break,)) or nested_loop_ret(st.body):
+                    raise Fail()
+
+                def brk(ss: list[ast.stmt]) -> list[ast.stmt]:
+                    o: list[ast.stmt] = []
+                    for x in ss:
+                        if isinstance(x, ast.Return):
+                            o.append(ast.copy_location(ast.Assign(targets=[ast.Name(id=ret, ctx=ast.Store())],
+                                                                  value=x.value if x.value is not None else ast.Constant(value=None)), x))
+                            o.append(ast.copy_location(ast.Break(), x))
+                            return o
+                        if isinstance(x, ast.If) and has_ret(x):
+                            x = ast.copy_location(ast.If(test=x.test, body=brk(x.body) or [ast.Pass()], orelse=brk(x.orelse)), x)
+                        o.append(x)
+                    return o
+
+                loop = copy.copy(st)
+                loop.body = brk(copy.deepcopy(st.body))
+                rest_, ralways = rec(copy.deepcopy(stmts[i + 1:]), depth + 1)
+                if not ralways:
+                    rest_ = rest_ + [ast.Assign(targets=[ast.Name(id=ret, ctx=ast.Store())], value=ast.Constant(value=None))]
+                loop.orelse = rest_
+                out.append(loop)
+                return out, True
             if not isinstance(st, ast.If):
                 raise Fail()
             rest = stmts[i + 1:]
@@ -507,6 +547,26 @@ def _single_exit(body: list[ast.stmt], ret: str) -> list[ast.stmt] | None:
     return res
 
 
+def _leading_calls(e: ast.expr | None) -> list[ast.Call]:
+    """Calls on the 'evaluated first' spine of ``e``, innermost (= earliest evaluated) first."""
+    out: list[ast.Call] = []
+    while e is not None:
+        if isinstance(e, ast.Call):
+            out.append(e)
+            e = e.func
+        elif isinstance(e, ast.Compare):
+            e = e.left
+        elif isinstance(e, ast.UnaryOp):
+            e = e.operand
+        elif isinstance(e, ast.BoolOp):
+            e = e.values[0]
+        elif isinstance(e, (ast.Attribute, ast.Subscript)):
+            e = e.value
+        else:
+            break
+    return out[::-1]
+
+
 def _leading_call(e: ast.expr) -> ast.Call | None:
     """The call that is evaluated first (unconditionally) when ``e`` is evaluated, if e starts with one."""
     if isinstance(e, ast.Call):
@@ -530,6 +590,8 @@ class HelperInliner:
         self.counter = 0
         self.inlined: set[str] = set()
         self.failed: set[str] = set()
+        kv = baseline.get(modname + "#vars")
+        self.new_consts = new_module_constants(module_tree, set(kv) if kv is not None else None)
 
     def is_new(self, qualname: str, modname: str | None = None) -> bool:
         known = self.baseline.get(modname or self.modname)
@@ -702,6 +764,25 @@ class HelperInliner:
                             done = True
                         else:
                             self.failed.add(q)
+                if not done and isinstance(st, (ast.Return, ast.Expr, ast.Assign)) and st.value is not None and call is None or \
+                        (not done and isinstance(st, (ast.Return, ast.Expr, ast.Assign)) and st.value is not None and call is not None
+                         and self.resolve(call, fn, cls, qual) is None):
+                    # a helper call on the evaluated-first spine of the statement (e.g. `return helper(x)(self)`): into a temporary first
+                    for lc0 in _leading_calls(st.value):
+                        if lc0 is st.value:
+                            continue
+                        r1 = self.resolve(lc0, fn, cls, qual)
+                        if r1 is not None and not any(isinstance(n, (ast.Yield, ast.YieldFrom)) for n in ast.walk(r1[0])):
+                            self.counter += 1
+                            tmp = f"__c{self.counter}"
+                            pre_ = ast.copy_location(ast.Assign(targets=[ast.Name(id=tmp, ctx=ast.Store())], value=lc0), st)
+                            st.value = _replace_node(st.value, lc0, ast.copy_location(ast.Name(id=tmp, ctx=ast.Load()), lc0))
+                            ast.fix_missing_locations(pre_)
+                            block[i:i + 1] = [pre_, st]
+                            done = True
+                            break
+                    if done:
+                        continue
                 if isinstance(st, ast.If) and not done:
                     lc = _leading_call(st.test)
                     r0 = self.resolve(lc, fn, cls, qual) if lc is not None else None
@@ -904,6 +985,39 @@ def _replace_node(root: ast.expr, old: ast.AST, new: ast.expr) -> ast.expr:
     return R().visit(root)
 
 
+def _literal_elements(it: ast.expr) -> list[ast.expr] | None:
+    """Elements of a literal iterable: (a, b), [a, b], {k: v}.items() / .keys() / .values() / the dict itself."""
+    if isinstance(it, (ast.Tuple, ast.List)):
+        return list(it.elts)
+    d, what = None, "keys"
+    if isinstance(it, ast.Dict):
+        d = it
+    elif isinstance(it, ast.Call) and isinstance(it.func, ast.Attribute) and isinstance(it.func.value, ast.Dict) and not it.args and not it.keywords \
+            and it.func.attr in ("items", "keys", "values"):
+        d, what = it.func.value, it.func.attr
+    if d is None or any(k is None for k in d.keys):
+        return None
+    if what == "items":
+        return [ast.Tuple(elts=[k, v], ctx=ast.Load()) for k, v in zip(d.keys, d.values)]  # type: ignore[list-item]
+    return list(d.keys) if what == "keys" else list(d.values)  # type: ignore[arg-type]
+
+
+def _unroll_bindings(target: ast.expr, elts: list[ast.expr]) -> list[dict[str, ast.expr]] | None:
+    """Per element: loop variable(s) -> literal, for `for x in (c1, c2)` and `for a, b in ((c1, f), (c2, g))`."""
+    def leaf(e: ast.expr) -> bool:
+        return isinstance(e, (ast.Constant, ast.Name)) or (isinstance(e, ast.Attribute) and isinstance(e.value, ast.Name))
+    out = []
+    for e in elts:
+        if isinstance(target, ast.Name) and isinstance(e, ast.Constant):
+            out.append({target.id: e})
+        elif isinstance(target, ast.Tuple) and all(isinstance(t, ast.Name) for t in target.elts) and isinstance(e, (ast.Tuple, ast.List)) \
+                and len(e.elts) == len(target.elts) and all(leaf(x) for x in e.elts):
+            out.append({t.id: x for t, x in zip(target.elts, e.elts)})  # type: ignore[attr-defined]
+        else:
+            return None
+    return out
+
+
 def lower(fn: ast.FunctionDef, tuples: bool = True, ifexp: bool = True) -> ast.FunctionDef:
     """Statement-level canonicalisation:
     * ``a, b = x, y`` (no cross dependency)            ->  ``a = x`` ; ``b = y``
@@ -927,6 +1041,14 @@ def lower(fn: ast.FunctionDef, tuples: bool = True, ifexp: bool = True) -> ast.F
                 reads = {n.id for v in st.value.elts for n in ast.walk(v) if isinstance(n, ast.Name)}
                 if not (names & reads):
                     new = [ast.copy_location(ast.Assign(targets=[t], value=v), st) for t, v in zip(st.targets[0].elts, st.value.elts)]
+            elif tuples and isinstance(st, ast.If) and not st.orelse and isinstance(st.test, ast.BoolOp) and isinstance(st.test.op, ast.And) \
+                    and _leading_walrus(st.test) is None and any(_leading_walrus(v) is not None for v in st.test.values[1:]):
+                # if a and (x := e) and c: B   ->   if a: if (x := e) and c: B      (no else branch)
+                k = next(i for i, v in enumerate(st.test.values) if i > 0 and _leading_walrus(v) is not None)
+                first = st.test.values[0] if k == 1 else ast.BoolOp(op=ast.And(), values=st.test.values[:k])
+                rest_ = st.test.values[k] if k == len(st.test.values) - 1 else ast.BoolOp(op=ast.And(), values=st.test.values[k:])
+                inner = ast.copy_location(ast.If(test=rest_, body=st.body, orelse=[]), st)
+                new = [ast.copy_location(ast.If(test=first, body=[inner], orelse=[]), st)]
             elif tuples and isinstance(st, ast.If) and _leading_walrus(st.test) is not None:
                 w = _leading_walrus(st.test)
                 pre = ast.copy_location(ast.Assign(targets=[ast.Name(id=w.target.id, ctx=ast.Store())], value=w.value), st)
@@ -938,15 +1060,16 @@ def lower(fn: ast.FunctionDef, tuples: bool = True, ifexp: bool = True) -> ast.F
                 t2 = _replace_node(st.test, w, ast.copy_location(ast.Name(id=w.target.id, ctx=ast.Load()), w))
                 brk = ast.copy_location(ast.If(test=ast.UnaryOp(op=ast.Not(), operand=t2), body=[ast.copy_location(ast.Break(), st)], orelse=[]), st)
                 new = [ast.copy_location(ast.While(test=ast.Constant(value=True), body=[pre, brk] + st.body, orelse=[]), st)]
-            elif tuples and isinstance(st, ast.For) and not st.orelse and isinstance(st.iter, (ast.Tuple, ast.List)) and 0 < len(st.iter.elts) <= 8 \
-                    and all(isinstance(e, ast.Constant) for e in st.iter.elts) and isinstance(st.target, ast.Name) \
+            elif tuples and isinstance(st, ast.For) and not st.orelse and _literal_elements(st.iter) is not None and 0 < len(_literal_elements(st.iter) or []) <= 12 \
+                    and _unroll_bindings(st.target, _literal_elements(st.iter) or []) is not None \
                     and not any(isinstance(n, (ast.Break, ast.Continue)) for b in st.body for n in ast.walk(b)) \
-                    and not any(isinstance(n, ast.Name) and n.id == st.target.id and isinstance(n.ctx, ast.Store) for b in st.body for n in ast.walk(b)):
-                # a loop over a literal tuple of constants is its unrolling
+                    and not any(isinstance(n, ast.Name) and isinstance(n.ctx, ast.Store) and n.id in {x.id for x in ast.walk(st.target) if isinstance(x, ast.Name)}
+                                for b in st.body for n in ast.walk(b)):
+                # a loop over a literal tuple of constants (or of equally shaped literal tuples) is its unrolling
                 new = []
-                for e in st.iter.elts:
+                for binding in _unroll_bindings(st.target, _literal_elements(st.iter) or []) or []:
                     for b in st.body:
-                        new.append(ast.fix_missing_locations(_Subst({st.target.id: e}).visit(copy.deepcopy(b))))
+                        new.append(ast.fix_missing_locations(_Canon().visit(_Subst(binding).visit(copy.deepcopy(b)))))
             elif tuples and isinstance(st, ast.Expr) and isinstance(st.value, ast.Call) and isinstance(st.value.func, ast.Attribute) \
                     and st.value.func.attr == "setdefault" and len(st.value.args) == 2 and not st.value.keywords \
                     and all(is_pure_expr(x) for x in st.value.args) and is_pure_expr(st.value.func.value):
@@ -1012,6 +1135,65 @@ def lower(fn: ast.FunctionDef, tuples: bool = True, ifexp: bool = True) -> ast.F
     return fn
 
 
+def new_module_constants(tree: ast.Module, known_vars: set[str] | None) -> dict[str, ast.expr]:
+    """Module-level names that do not exist on the pinned tree, are bound exactly once, to a literal structure
+    (constants, tuples / lists / sets / dicts of such, names of module-level functions and classes allowed as leaves),
+    and are never rebound through ``global``.  Their uses inside functions are replaced by the literal."""
+    if known_vars is None:
+        return {}
+    stores: dict[str, int] = {}
+    defs: dict[str, ast.expr] = {}
+    for st in tree.body:
+        if isinstance(st, (ast.FunctionDef, ast.AsyncFunctionDef, ast.ClassDef)):
+            continue
+        for n in ast.walk(st):
+            if isinstance(n, ast.Name) and isinstance(n.ctx, ast.Store):
+                stores[n.id] = stores.get(n.id, 0) + 1
+        tg = val = None
+        if isinstance(st, ast.Assign) and len(st.targets) == 1 and isinstance(st.targets[0], ast.Name):
+            tg, val = st.targets[0].id, st.value
+        elif isinstance(st, ast.AnnAssign) and isinstance(st.target, ast.Name) and st.value is not None:
+            tg, val = st.target.id, st.value
+        if tg is not None and val is not None:
+            defs[tg] = val
+    for n in ast.walk(tree):
+        if isinstance(n, ast.Global):
+            for x in n.names:
+                stores[x] = stores.get(x, 0) + 2
+    toplevel = {st.name for st in tree.body if isinstance(st, (ast.FunctionDef, ast.ClassDef))}
+    for st in ast.walk(tree):
+        if isinstance(st, (ast.Import, ast.ImportFrom)):
+            toplevel |= {(a.asname or a.name).split(".")[0] for a in st.names}
+
+    def literal(e: ast.expr, depth: int = 0) -> bool:
+        if depth > 4:
+            return False
+        if isinstance(e, ast.Constant):
+            return True
+        if isinstance(e, ast.Name):
+            return e.id in toplevel
+        if isinstance(e, ast.Attribute):  # SerializationOption.SKIP_CLASS and the like
+            return isinstance(e.value, ast.Name) and e.value.id[:1].isupper()
+        if isinstance(e, (ast.Tuple, ast.List, ast.Set)):
+            return all(literal(x, depth + 1) for x in e.elts)
+        if isinstance(e, ast.Dict):
+            return all(k is not None and literal(k, depth + 1) and literal(v, depth + 1) for k, v in zip(e.keys, e.values))
+        if isinstance(e, ast.Call) and isinstance(e.func, ast.Name) and e.func.id in ("frozenset", "tuple") and len(e.args) == 1 and not e.keywords:
+            return literal(e.args[0], depth + 1)
+        if isinstance(e, ast.UnaryOp) and isinstance(e.op, ast.USub):
+            return literal(e.operand, depth + 1)
+        return False
+
+    out = {}
+    for name, val in defs.items():
+        if name in known_vars or stores.get(name) != 1 or not literal(val):
+            continue
+        if isinstance(val, ast.Call):  # frozenset((..)) / tuple([..]) of literals: the literal sequence itself
+            val = ast.copy_location(ast.Tuple(elts=list(val.args[0].elts), ctx=ast.Load()), val) if isinstance(val.args[0], (ast.Tuple, ast.List, ast.Set)) else val
+        out[name] = val
+    return out
+
+
 class _Canon(ast.NodeTransformer):
     """Expression / statement spellings with one meaning get one form:
     * ``x: T = v`` inside a function is ``x = v`` (local annotations are not evaluated); a bare ``x: T`` disappears
@@ -1039,6 +1221,16 @@ class _Canon(ast.NodeTransformer):
         if len(node.ops) == 1 and isinstance(node.ops[0], (ast.Is, ast.IsNot)) and isinstance(node.left, ast.Constant) \
                 and not isinstance(node.comparators[0], ast.Constant) and not any(isinstance(x, ast.NamedExpr) for x in ast.walk(node)):
             return ast.copy_location(ast.Compare(left=node.comparators[0], ops=node.ops, comparators=[node.left]), node)
+        return node
+
+    def visit_Expr(self, node: ast.Expr) -> ast.AST:
+        self.generic_visit(node)
+        v = node.value
+        if isinstance(v, ast.Call) and isinstance(v.func, ast.Name) and v.func.id == "setattr" and len(v.args) == 3 and not v.keywords \
+                and isinstance(v.args[1], ast.Constant) and isinstance(v.args[1].value, str) and v.args[1].value.isidentifier() \
+                and isinstance(v.args[0], ast.Name) and v.args[0].id in ("cls", "clz", "klass"):
+            # setattr(cls, "name", v) on a class object is the attribute assignment cls.name = v
+            return ast.copy_location(ast.Assign(targets=[ast.Attribute(value=v.args[0], attr=v.args[1].value, ctx=ast.Store())], value=v.args[2]), node)
         return node
 
     def visit_ClassDef(self, node: ast.ClassDef) -> ast.AST:
@@ -1142,6 +1334,11 @@ def _inline_adjacent(fn: ast.FunctionDef) -> None:
 def normalize(fn: ast.FunctionDef, cls: ast.ClassDef | None, qual: str, inliner: HelperInliner | None, keep: set[str] | None = None) -> ast.FunctionDef:
     new = copy.deepcopy(fn)
     new = _StripCasts().visit(new)
+    if inliner is not None and inliner.new_consts:
+        shadow = {n.id for n in ast.walk(new) if isinstance(n, ast.Name) and isinstance(n.ctx, ast.Store)} | {a.arg for a in ast.walk(new) if isinstance(a, ast.arg)}
+        consts = {k: v for k, v in inliner.new_consts.items() if k not in shadow}
+        if consts:
+            new.body = [_Subst(consts).visit(st) for st in new.body]
     body = [_Canon().visit(st) for st in new.body]
     new.body = [st for st in body if not isinstance(st, ast.Pass)] or [ast.copy_location(ast.Pass(), new)]
     if inliner is not None:
@@ -1152,6 +1349,9 @@ def normalize(fn: ast.FunctionDef, cls: ast.ClassDef | None, qual: str, inliner:
                 used = any(isinstance(n, ast.Name) and n.id == st.name and isinstance(n.ctx, ast.Load) for x in new.body if x is not st for n in ast.walk(x))
                 if not used:
                     new.body.remove(st)
+    if inliner is not None and inliner.inlined:
+        body = [_Canon().visit(st) for st in new.body]  # inlined helper bodies get the same canonical spellings
+        new.body = [st for st in body if not isinstance(st, ast.Pass)] or [ast.copy_location(ast.Pass(), new)]
     new = lower(new, tuples=True, ifexp=False)
     new = inline_locals(new, keep)
     _inline_adjacent(new)
